@@ -19,6 +19,8 @@ Memory / stack exhaustion is outside the property.
 import Anko.Model.Cont
 import Anko.Model.Eval
 import Anko.Gen.Recover
+import Anko.Gen.RunFlow
+import Anko.Props.RunFlowTable
 
 namespace Anko.C01
 open Anko.Cont
@@ -129,5 +131,13 @@ theorem goroutines_recover :
 example : sliceBounds 3 5 false (some (.int 1)) (some (.int 2)) (some (.int 4)) = .ok 1 2 4 := by decide
 example : Raw.slice3OK 5 1 2 6 = false := by decide
 example : arityBad true false 2 1 = false ∧ Raw.callOK true 2 1 = true := by decide
+
+/-! ### The entry points, recoverFunc and the construction of types and values in the source (regenerated: Gen/RunFlow)
+
+Every leaf statement of Execute / ExecuteContext / Run / RunContext (parse error returned, the run under the context, deferred calls of the top level,
+the sentinel errors mapped at the end), recoverFunc, makeType / getTypeFromEnv / makeValue and `make(type ...)`, with the conditions it stands
+under, is the one written down in Props/RunFlowTable - the code the containment facts of Gen/Recover and the guard theorems above were audited against. Any edit of these functions - also a harmless one - breaks this obligation by name; the check then
+searches model and implementation for a failing input (DESIGN.md 13.3). -/
+theorem entry_points_and_type_construction_are_the_audited_ones : Gen.RunFlow.leaves = Tables.runFlow := by decide +kernel
 
 end Anko.C01
